@@ -53,6 +53,14 @@ def run(ctx):
     exhaustion_rule(ctx)
     from .c14 import stats_every_record
     stats_every_record(ctx, "C16.Q")
+    # empty input on the mmap path: the mapping has length 0, so no unconditional write may touch it
+    from . import c05
+    fb, fm = ctx.view(c05.BATCH), ctx.view(c05.MMAP)
+    if fb is not None and fm is not None:
+        c05.header_rule(dep(ctx, "C16", "C05"), fb, fm)
+    if fm is not None:
+        rule_taken_reaches(dep(ctx, "C16", "C05"), "C05.T", fm, "vectorise_mmap",
+                           lambda n: n.get("k") == "mcall" and cname(n) == "ktio::mmap::MMWriter::write_at", "row write")
 
 
 def sniff_rule(ctx, path):
